@@ -27,6 +27,8 @@ type backend struct {
 	panics      int         // panics injected so far
 	errKinds    bool        // draw error *values* of many kinds (linux / syscall errno, os.Err*, wrapped, opaque)
 	dirRoot     bool        // the root is always a directory
+	noENOSYS    bool        // WalkGetAttr is always implemented
+	bigXattr    int         // GetXattr returns this many bytes (reads on xattr fids near msize)
 	attrByH     bool        // GetAttr answers a fixed function of the handle (content checks under concurrency)
 	fillByOff   bool        // ReadAt fills the buffer with byte(offset)
 	panicOn     string      // the next call of this method panics (once)
@@ -299,7 +301,7 @@ func (f *sfile) walkCommon(meth string, names []string, withAttr bool) ([]p9.QID
 		return nil, nil, p9.AttrMask{}, p9.Attr{}, o.err
 	}
 	b.mu.Lock()
-	if meth == "WalkGetAttr" && b.r.chance(1, 2) {
+	if meth == "WalkGetAttr" && !b.noENOSYS && b.r.chance(1, 2) {
 		// like DefaultWalkGetAttr: not implemented, the server falls back to Walk + GetAttr
 		b.tape = append(b.tape, fmt.Sprintf("err:%d", uint32(linux.ENOSYS)))
 		b.presetQIDs = nil
@@ -343,6 +345,9 @@ func (f *sfile) walkCommon(meth string, names []string, withAttr bool) ([]p9.QID
 	}
 	b.mu.Unlock()
 	b.okTape(ints, nil, nil)
+	if b.gate != nil {
+		b.gate(f.id, meth+":return") // the very last thing the call does
+	}
 	return qids, nf, valid, attr, nil
 }
 
@@ -557,6 +562,9 @@ func (f *sfile) GetXattr(attr string) ([]byte, error) {
 	}
 	b.mu.Lock()
 	data := b.r.bytesN(b.r.intn(40))
+	if b.bigXattr > 0 {
+		data = b.r.bytesN(b.bigXattr)
+	}
 	b.mu.Unlock()
 	b.okTape(nil, [][]byte{data}, nil)
 	return data, nil
